@@ -21,6 +21,7 @@ EXPLANATION = (
     "Not decided: that reported ranges lie inside the input (values), super-linear time."
     " (R6) nothing on the parse path iterates a std HashMap/HashSet (per-instance random order); (R7) a catch-all arm that panics on the result of a sub-parser is dead: the sub-parser can return no variant outside the arms' patterns (variant sets over the parser call graph)."
     ' (R8) no ParseError is built with SourceRange::default(); (R9) format_error counts shown and remaining errors on the same list.'
+    ' (R10) panicking element reads of the parser are guarded: the grapheme under the cursor is read only after is_empty() was tested false on that path; a constant-index read X[k] only where guards imply X.len() > k; Option/Vec unwraps the function itself tests elsewhere only where the test holds. Reads with a computed index are listed, not decided.'
 )
 IMPURE = re.compile(r"^std::fs::|^std::env::|^std::net::|^std::process::|^std::time::|^rand::|^getrandom::|^std::thread::|^std::io::stdin|^std::os::|^tokio::|^reqwest::")
 
